@@ -2676,8 +2676,13 @@ fn slice_vec(v: &Xvec, start: isize, end: isize) -> Xvec {
 }
 
 fn core_word_slice(xs: &mut State) -> Xresult {
-    let end = xs.pop_data()?.to_isize()?;
-    let start = xs.pop_data()?.to_isize()?;
+    // slice clamps its indices, so anything beyond the machine word is as good as the word's limit
+    fn clamped(c: Cell) -> Xresult1<isize> {
+        let i = c.to_xint()?;
+        Ok(i.max(isize::MIN as Xint).min(isize::MAX as Xint) as isize)
+    }
+    let end = clamped(xs.pop_data()?)?;
+    let start = clamped(xs.pop_data()?)?;
     let indexed = xs.pop_data()?;
     let slice = match indexed.value() {
         Cell::Vector(v) => Cell::from(slice_vec(v, start, end)),
